@@ -305,6 +305,10 @@ fn pep440_family(out: &mut Out) {
         Some(vec![LocalSegment::UInt(u32::MAX)]),
         Some(vec![LocalSegment::Str("0a".into())]),
         Some(vec![LocalSegment::UInt(1), LocalSegment::Str("4294967296".into())]),
+        // numeric parts beyond u64 as well (a width change in the digits-only test shows only there), and a text starting with a smaller digit
+        Some(vec![LocalSegment::Str("99999999999999999999".into())]),
+        Some(vec![LocalSegment::Str("100000000000000000000".into())]),
+        Some(vec![LocalSegment::Str("1a".into())]),
     ];
     let mut vs = Vec::new();
     for e in [0u32, 1] {
@@ -1170,6 +1174,20 @@ fn barrier_family(out: &mut Out) {
                 if let Err(why) = is_sanitized(&s, d, lower, false, None) {
                     out.cex("resolve_barrier", format!("Component::Str({t:?}).resolve_value with {name} = {s:?}: {why}"));
                 }
+            }
+        }
+    }
+    // C17 "the commit (or, failing that, tag) time": the instant a timestamp variable is resolved for, in every combination of the two times
+    // (2024-03-15 and 2025-07-04; either may be the later one)
+    let (t1, t2) = (1710511845u64, 1751600000u64);
+    for (b, l) in [(Some(t1), Some(t2)), (Some(t2), Some(t1)), (Some(t1), None), (None, Some(t2)), (None, None), (Some(t1), Some(t1))] {
+        let vars = ZervVars { bumped_timestamp: b, last_timestamp: l, ..Default::default() };
+        for pat in ["YYYY", "MM", "DD", "compact_date"] {
+            out.cases += 1;
+            let want = b.or(l).and_then(|t| zerv::version::zerv::resolve_timestamp(pat, t).ok());
+            let got = Var::Timestamp(pat.to_string()).resolve_value(&vars, &Sanitizer::semver_str());
+            if got != want {
+                out.cex("resolve_barrier", format!("class=timestamp-not-commit-then-tag ts({pat:?}) with commit time {b:?} and tag time {l:?} resolves to {got:?}; the pattern applied to the commit time, else the tag time, is {want:?}"));
             }
         }
     }
